@@ -34,7 +34,11 @@
     * "answered normally": same RCODE, AA and answer/authority sections as the response to the same
       request without the TSIG RR; the additional section may have lost optional records (less
       room), and over UDP the signed response may be truncated (TC, no data) where the plain one is
-      not.
+      not.  The comparison is made only when taking the TSIG RR out does not change what the request
+      *asks* (`plainComparable`): a compression pointer may point into the header, and ARCOUNT — which
+      `stripTsigRr` decrements — then becomes part of a name (QNAME `C0 0B`; OPT owner `C0 0B` with
+      ARCOUNT 256).  For such requests "the same request without the TSIG RR" does not exist and the
+      clause is skipped; every other clause applies.
 -/
 import QV.Prelude
 import QV.Spec.Tsig
@@ -210,6 +214,38 @@ def stripTsigRr (req : Bytes) : Option Bytes :=
     some (bump m 10 65535).toArray
   | none => none
 
+/-- the decision table `Server.specScanWith` applies after a scan that ended at `pos` without finding
+    anything wrong: what a request with question `q` is answered once its TSIG RR (ending at `pos`) has
+    been accepted -/
+def postVerdict (lookup : List UInt8 → Nat → Option Server.ZoneKind) (msg : Bytes) (q : Option DQuestion)
+    (pos : Nat) : Server.Verdict :=
+  if pos < msg.size then .formErr
+  else if (msg.getD 2 0).toNat / 8 % 16 ≠ 0 then .notImp
+  else match q with
+    | none => .formErr
+    | some qq =>
+      if 251 ≤ qq.qtype ∧ qq.qtype ≤ 254 then .notImp
+      else if qq.qclass = 255 then .notImp
+      else match lookup qq.qname qq.qclass with
+        | none => .refused
+        | some .loaded => .answer
+        | some _ => .servFailZone
+
+/-- taking the TSIG RR out does not change what the request asks: the scan of the stripped request
+    finds the same question, the same EDNS state and UDP limit, and ends with the verdict the decision
+    table gives the signed request after its TSIG RR.  (It can fail only when a compression pointer of
+    the question or of the OPT owner points into octets 10–11 of the header, ARCOUNT.) -/
+def plainComparable (cat : List Server.ZoneCfg) (serverSize : Nat) (req : Bytes) : Bool :=
+  match findTsig req, stripTsigRr req with
+  | some d, some p =>
+    let sc := Server.specScan cat serverSize req
+    let sp := Server.specScan cat serverSize p
+    sp.respond && decide (sp.question = sc.question) && decide (sp.edns = sc.edns) &&
+      decide (sp.limitUdp = sc.limitUdp) &&
+      decide (sp.verdict = postVerdict (fun qn qc => (Server.specCatalogLookup cat qn qc).map (·.kind)) req
+        sc.question d.next)
+  | _, _ => false
+
 structure RrKey where
   owner : Octets
   ty : Nat
@@ -256,7 +292,7 @@ def viewRequest (hm : Hm) (keys : List KeyCfg) (req : Bytes) (now : Nat) : Optio
 /-- audit of one response to a request in which a syntactically acceptable TSIG RR was reached.
     `plain` = the response to the same request without the TSIG RR.  Returns (tags, class). -/
 def auditResponse (hm : Hm) (sc : Server.Scan) (rv : ReqView) (now : Nat) (udp : Bool) (reqId : Nat)
-    (r plain : Resp) : List String × String :=
+    (cmp : Bool) (r plain : Resp) : List String × String :=
   let tr := if udp then "udp" else "tcp"
   let f := rv.fields
   let out := (outputSizeOf f.algName).getD 0
@@ -343,6 +379,7 @@ def auditResponse (hm : Hm) (sc : Server.Scan) (rv : ReqView) (now : Nat) (udp :
                   if d.tc then
                     (if !udp then [s!"C10:tc-over-tcp"] else []) ++ (if !noData then [s!"C10:tc-with-data-{tr}"] else [])
                   else if pd.tc then []
+                  else if !cmp then []     -- not comparable (`plainComparable`)
                   else
                     (if d.rcode ≠ pd.rcode ∨ d.aa ≠ pd.aa then [s!"C10:answer-header-differs-{tr}"] else []) ++
                     (if !sameMultiset (d.an.map rrKey) (pd.an.map rrKey) then [s!"C10:answer-differs-{tr}"] else []) ++
@@ -371,6 +408,6 @@ def audit (hm : Hm) (cat : List Server.ZoneCfg) (serverSize : Nat) (keys : List 
     | _ => ([], "pre-tsig")
   else match viewRequest hm keys req now with
     | none => ([], "pre-tsig")
-    | some rv => auditResponse hm sc rv now udp (Server.hdr req 0) r plain
+    | some rv => auditResponse hm sc rv now udp (Server.hdr req 0) (plainComparable cat serverSize req) r plain
 
 end QV.Spec.ServerTsig
